@@ -36,8 +36,12 @@ pub struct SpecAir<B: Fld> {
     values: Vec<Vec<B>>,
 }
 
+/// as in the crate's own Lagrange test the "GKR proof" is log2(trace length); a verifier for a given
+/// AIR knows that number and returns exactly that many random elements
 #[derive(Debug, Clone, Default)]
-pub struct DummyGkrVerifier;
+pub struct DummyGkrVerifier {
+    pub log_n: usize,
+}
 
 impl GkrVerifier for DummyGkrVerifier {
     type GkrProof = usize;
@@ -52,9 +56,8 @@ impl GkrVerifier for DummyGkrVerifier {
         E: FieldElement,
         Hasher: ElementHasher<BaseField = E::BaseField>,
     {
-        // as in the crate's own Lagrange test: the "proof" is log2(trace length)
-        if gkr_proof > 64 {
-            return Err(VerifierError::ProofDeserializationError("dummy gkr proof too large".into()));
+        if gkr_proof != self.log_n {
+            return Err(VerifierError::GkrProofVerificationFailed("dummy gkr proof is not log2(trace length)".into()));
         }
         let mut rand_elements = Vec::with_capacity(gkr_proof);
         for _ in 0..gkr_proof {
@@ -62,6 +65,78 @@ impl GkrVerifier for DummyGkrVerifier {
         }
         Ok(LagrangeKernelRandElements::new(rand_elements))
     }
+}
+
+/// Project a description onto the trace shape found in a proof (identity for the genuine shape).
+pub fn reconcile(spec: &AirSpec, info: &TraceInfo) -> AirSpec {
+    use crate::spec::{ASpec, Aux};
+    let mut s = spec.clone();
+    let w = info.main_trace_width();
+    let n = info.length();
+    s.n = n;
+    // main columns: extra columns follow x' = x + 1, missing ones are dropped; a Fibonacci pair cut in half degrades
+    s.rules.resize(w, Rule::Pow { d: 1, c: 1 });
+    for i in 0..w {
+        let ok = match s.rules[i] {
+            Rule::FibA => i + 1 < w && s.rules[i + 1] == Rule::FibB,
+            Rule::FibB => i >= 1 && s.rules[i - 1] == Rule::FibA,
+            Rule::Periodic { cycle, .. } => cycle >= 2 && cycle <= n && cycle.is_power_of_two(),
+            Rule::Rot { order } => order >= 2 && order <= n && order.is_power_of_two(),
+            _ => true,
+        };
+        if !ok {
+            s.rules[i] = Rule::Pow { d: 1, c: 1 };
+        }
+    }
+    // auxiliary segment as the proof describes it
+    let aw = info.aux_segment_width();
+    let rands = info.get_num_aux_segment_rand_elements();
+    s.aux = if aw == 0 {
+        Aux::None
+    } else if spec.has_lagrange() && aw >= 2 {
+        Aux::SumLagrange { cols: aw - 1, rands }
+    } else {
+        Aux::Sum { cols: aw, rands }
+    };
+    // assertions that still make sense for this width and length
+    let valid = |a: &ASpec| -> bool {
+        if a.col >= w {
+            return false;
+        }
+        match a.kind {
+            AKind::Single(st) => st < n,
+            AKind::Periodic { first, stride } => stride >= 2 && stride.is_power_of_two() && stride <= n && first < stride,
+            AKind::Sequence { first, stride } => stride >= 2 && stride.is_power_of_two() && stride < n && first < stride,
+        }
+    };
+    let mut asserts: Vec<ASpec> = vec![];
+    // for absurd trace lengths (claimed by a hostile proof) only single-step assertions are kept, so that
+    // no step set has to be materialised
+    let huge = n > (1 << 16);
+    let mut seen_single: Vec<(usize, usize)> = vec![];
+    for a in s.asserts.iter().filter(|a| valid(a)) {
+        if huge {
+            if let AKind::Single(st) = a.kind {
+                if !seen_single.contains(&(a.col, st)) {
+                    seen_single.push((a.col, st));
+                    asserts.push(*a);
+                }
+            }
+            continue;
+        }
+        // drop assertions that would overlap after the projection
+        let steps: Vec<usize> = s.steps_of(a);
+        let clash = asserts.iter().any(|b| b.col == a.col && s.steps_of(b).iter().any(|x| steps.contains(x)));
+        if !clash {
+            asserts.push(*a);
+        }
+    }
+    if asserts.is_empty() {
+        asserts.push(ASpec { col: 0, kind: AKind::Single(0) });
+    }
+    s.asserts = asserts;
+    s.exemptions = s.exemptions.clamp(1, n / 2 + 1);
+    s
 }
 
 pub fn degrees(spec: &AirSpec) -> (Vec<TransitionConstraintDegree>, Vec<TransitionConstraintDegree>) {
@@ -85,7 +160,25 @@ impl<B: Fld> Air for SpecAir<B> {
     type GkrVerifier = DummyGkrVerifier;
 
     fn new(trace_info: TraceInfo, pub_inputs: SpecPub<B>, options: ProofOptions) -> Self {
-        let spec = pub_inputs.spec.clone();
+        // `Air::new` cannot fail, and the trace info / options come from the (untrusted) proof. A
+        // careful AIR therefore reconciles its description with whatever shape it is handed instead of
+        // asserting: the description is projected onto the given widths and length. For proofs of
+        // the genuine shape this is the identity.
+        let spec = Arc::new(reconcile(&pub_inputs.spec, &trace_info));
+        let mut values = pub_inputs.values.clone();
+        values.resize(spec.asserts.len().max(values.len()), vec![B::ZERO]);
+        // keep the values of the assertions that survived, in order
+        let mut kept = vec![];
+        for a in spec.asserts.iter() {
+            let v = pub_inputs.spec.asserts.iter().position(|x| x == a).and_then(|i| pub_inputs.values.get(i).cloned());
+            let want = match a.kind {
+                AKind::Sequence { stride, .. } => spec.n / stride,
+                _ => 1,
+            };
+            let mut v = v.unwrap_or_default();
+            v.resize(want, B::ZERO);
+            kept.push(v);
+        }
         let (main_deg, aux_deg) = degrees(&spec);
         let context = if trace_info.is_multi_segment() {
             let lag = if spec.has_lagrange() { Some(trace_info.aux_segment_width() - 1) } else { None };
@@ -94,7 +187,7 @@ impl<B: Fld> Air for SpecAir<B> {
             AirContext::new(trace_info, main_deg, spec.asserts.len(), options)
         };
         let context = context.set_num_transition_exemptions(spec.exemptions);
-        SpecAir { context, spec, values: pub_inputs.values }
+        SpecAir { context, spec, values: kept }
     }
 
     fn context(&self) -> &AirContext<B> {
@@ -155,7 +248,7 @@ impl<B: Fld> Air for SpecAir<B> {
     }
 
     fn get_auxiliary_proof_verifier<E: FieldElement<BaseField = B>>(&self) -> DummyGkrVerifier {
-        DummyGkrVerifier
+        DummyGkrVerifier { log_n: self.context.trace_len().ilog2() as usize }
     }
 
     fn get_periodic_column_values(&self) -> Vec<Vec<B>> {
